@@ -7,6 +7,7 @@ import (
 	"fmt"
 	"io"
 	"os"
+	"path/filepath"
 )
 
 var (
@@ -245,10 +246,20 @@ func (w *Writer) SyncAndClose() error {
 
 func Write(path string, offset int64, newVersion Version, opts Params, index []Item) (retErr error) {
 	// write to a temp file and rename it in place, so a partially written index is never visible at path
-	tmpPath := path + ".tmp"
-	if err := os.Remove(tmpPath); err != nil && !errors.Is(err, os.ErrNotExist) {
-		return fmt.Errorf("write index remove stale temp: %w", err)
+	// the temp file has a unique name, read-only handles (also of other processes) may rebuild the same index at the same time
+	tmp, err := os.CreateTemp(filepath.Dir(path), filepath.Base(path)+".tmp.*")
+	if err != nil {
+		return fmt.Errorf("write index temp: %w", err)
 	}
+	tmpPath := tmp.Name()
+	if err := tmp.Close(); err != nil {
+		return fmt.Errorf("write index temp: %w", err)
+	}
+	defer func() {
+		if retErr != nil {
+			_ = os.Remove(tmpPath)
+		}
+	}()
 
 	w, err := OpenWriter(tmpPath, offset, newVersion, opts)
 	if err != nil {
